@@ -289,11 +289,10 @@ def run(ctx):
     else:
         UO9 = c.LW + "api_impl::owner::update_outputs"
         scs = {b for b, _t in cfg.find_calls(osc, c.LW + "internal::scan::scan")}
-        full = set()
-        for ub, ut in cfg.find_calls(osc, UO9):
-            if vf.const_of_operand(osc, ut["a"][2]) == "1":
-                full |= cfg.call_guard(osc, ub).ok
-        held = bool(scs) and bool(full) and cfg.must_pass(osc, full, scs)[0]
+        full = [(ub, ut) for ub, ut in cfg.find_calls(osc, UO9) if vf.const_of_operand(osc, ut["a"][2]) == "1"]
+        full += [(ub, ut) for ub, ut in cfg.find_calls(osc, c.LW + "internal::updater::refresh_outputs") if len(ut["a"]) > 3 and vf.const_of_operand(osc, ut["a"][3]) == "1"]
+        from .shared import refreshed_before
+        held = refreshed_before(osc, scs, full)
         run.instance(R9, {"fn": "owner::scan", "obligation": "scan::scan only after update_outputs(.., true) Ok (the constant true, not a condition on the start height)"}, held=held)
         if not held:
             run.finding(Finding(R9, osc.id, "the refresh in front of a scan no longer covers all records on every path: confirmed outputs that a reorganisation removed are not compared with the node, the payment stays confirmed and spendable", site=osc.loc()))
